@@ -101,7 +101,7 @@ def crash_site(stderr):
         if "/source/" in path or "/include/world_builder/" in path or "/include/" in path:
             fn = re.sub(r"\(.*", "", fn)
             return "%s@%s" % (fn, os.path.basename(path))
-    m = re.search(r"SUMMARY: \w+Sanitizer: (\S+)", stderr)
+    m = re.search(r"ERROR: \w+Sanitizer: ([\w-]+)", stderr) or re.search(r"SUMMARY: \w+Sanitizer: (\S+)", stderr)
     return m.group(1) if m else "unknown"
 
 
@@ -446,10 +446,17 @@ def check(prop, tier, seed, runs_override=None, workers=None, repo="/repo", time
             if flavour == cfg["parts"][0][0]:
                 hashes[r] = h
             nt = d["counters"].get("nontrivial", 1 if d["counters"].get("evaluations", 0) > 0 else 0) > 0
+            if prop == "C12":
+                nt = any(k.startswith("fault_") for k in d["counters"]) or any(
+                    k.startswith("probe_") and k not in ("probe_valid", "probe_intact-after") for k in d["counters"])
+            if prop == "C14":
+                nt = d["sched"]["decisions"] > 0 or d["counters"].get("sched_decisions", 0) > 0
             if nt:
                 nontrivial_hashes.add(h)
             if d["sched"]["decisions"] > 0:
                 interleavings.add(d["sched"]["trace"])
+            for tr in d.get("tool_traces", []):
+                interleavings.add(tr)
             for v in d["violations"]:
                 key = (v["class"], v["site"])
                 e = viol.setdefault(key, dict(run=r, flavour=flavour, detail=v["detail"], count=0))
@@ -468,6 +475,7 @@ def check(prop, tier, seed, runs_override=None, workers=None, repo="/repo", time
     exit_code = 0
     lines = []
     n_new = 0
+    n_minimised = 0
     known_hits = []
     os.makedirs(os.path.join(VERIF, "replays"), exist_ok=True)
     for (cls, site), e in viol.items():
@@ -488,7 +496,12 @@ def check(prop, tier, seed, runs_override=None, workers=None, repo="/repo", time
         if k is not None:
             known_hits.append((cls, site, k))
             continue
-        mini = Minimiser(binary, sc, cls, site, cfg["timeout"])
+        # full minimisation for the first few signatures, a lighter pass for the rest (bounded wall clock)
+        n_minimised += 1
+        mini = Minimiser(binary, sc, cls, site, cfg["timeout"],
+                         budget_runs=160 if n_minimised <= 3 else 25, budget_s=90 if n_minimised <= 3 else 20)
+        if n_minimised > 8:
+            mini.budget_runs = 0
         small = mini.run()
         small["expected_class"] = cls
         small["expected_site"] = site
@@ -529,7 +542,7 @@ def check(prop, tier, seed, runs_override=None, workers=None, repo="/repo", time
     ev = dict(
         property_id=prop, tier=tier, seed=seed, level="exploration",
         coverage=dict(
-            evaluations=int(max(1, agg.get("evaluations", 0))),
+            evaluations=int(max(1, agg.get("evaluations", 0) + (agg.get("outcome_checks", 0) if prop in ("C12", "C17", "C18") else 0))),
             distinct_nontrivial=len(nontrivial_hashes),
             rule=cfg["rule"],
             samples=samples,
